@@ -106,11 +106,21 @@ func ZzC04Response() {
 	buf, err := res.Marshal()
 	zzAssert(err == nil, "response marshals")
 	req := Request{Method: Options, Header: Header{"CSeq": HeaderValue{"8"}}}
+	if zzParam("LONGFOLLOW", 0) == 1 {
+		// the follower is longer than the response, so that a reader which refills its
+		// buffer overwrites every place the response's fields could still point into
+		req.Header["A"] = HeaderValue{"aaaaaaaaaaaaaaaaaaaaaaaaaaaaaaaaaaaaaaaa"}
+		req.Header["B"] = HeaderValue{"bbbbbbbbbbbbbbbbbbbbbbbbbbbbbbbbbbbbbbbb"}
+		req.Header["C"] = HeaderValue{"cccccccccccccccccccccccccccccccccccccccc"}
+	}
 	rb, err := req.Marshal()
 	zzAssert(err == nil, "request marshals")
 	stream := append(append([]byte(nil), buf...), rb...)
 	split := 0
-	if zzParam("SPLIT", 1) == 1 {
+	if zzParam("LONGFOLLOW", 0) == 1 {
+		// one delivery per element
+		split = len(buf)
+	} else if zzParam("SPLIT", 1) == 1 {
 		split = zzInt("split")
 		zzAssume(split >= 1)
 		zzAssume(split <= len(stream)-1)
@@ -133,6 +143,8 @@ func ZzC04Response() {
 	zzAssert(err == nil, "request after the response is read back")
 	if err == nil {
 		zzAssert(g2.Method == Options && g2.URL == nil, "following request preserved")
+		zzAssert(zzBytesEq(got.Body, res.Body), "the body of an element already returned is not disturbed by reading the next one")
+		zzAssert(len(got.Header["Session"]) == 1 && got.Header["Session"][0] == res.Header["Session"][0], "header values of an element already returned are not disturbed by reading the next one")
 	}
 	zzCover("done", true)
 }
